@@ -26,10 +26,8 @@ Local Open Scope Z_scope.
 
 (** executing the micro-steps of an operation one by one gives the state the
     big-step operation gives (for the mailbox / link tables: Model/Ops.v's
-    [step], the model of C03; CREATE and RENAME: [op_create7] / [op_rename7],
-    the code after raven 0c3ee23 .. 59c8bd8, which Model/Ops.v does not follow
-    yet).  Unconditional for every operation since RENAME no longer aborts on
-    an empty parent component. *)
+    [step], the model of C03, for every operation incl. CREATE / RENAME with
+    parents and the UIDVALIDITY allocator).  Unconditional. *)
 Theorem c07_micro_refines : forall d o,
   WF d -> run_steps d (micro d o) = fst (big d o).
 Proof. exact refines. Qed.
@@ -77,6 +75,23 @@ Theorem c07_uid_gap_harmless : forall d msg mb fl m,
 Proof. exact gap_state. Qed.
 Print Assumptions c07_uid_gap_harmless.
 
+(** a crash between the allocator statement (nextUIDValidityPerUser, raven
+    da328ca) and the INSERT of CreateMailboxPerUser leaves the high-water mark
+    advanced and nothing else: no mailbox, link, log entry, message or
+    subscription changed; the next stamp handed out is strictly larger than the
+    one that was burnt; C03's invariant survives — a skipped stamp, harmless
+    like the skipped UID of [c07_uid_gap_harmless] *)
+Theorem c07_validity_gap_harmless : forall d n t,
+  ready d = true ->
+  let c := run_steps d (firstn 1 (create_steps (d_st d) n t)) in
+  mboxes (d_st c) = mboxes (d_st d) /\ links (d_st c) = links (d_st d) /\ glog (d_st c) = glog (d_st d) /\
+  d_msgs c = d_msgs d /\ d_subs c = d_subs d /\
+  vhigh (d_st c) = next_validity (d_st d) t /\
+  (forall t', next_validity (d_st d) t < next_validity (d_st c) t') /\
+  (Inv (d_st d) -> Inv (d_st c)).
+Proof. exact validity_gap_state. Qed.
+Print Assumptions c07_validity_gap_harmless.
+
 (** ---- (d) the UID rules inside an operation (partial) ------------------------------- *)
 
 (** PARTIAL: C03 proves its invariant [Inv] (UIDs unique, ascending, UIDNEXT
@@ -89,7 +104,7 @@ Print Assumptions c07_uid_gap_harmless.
     its two statements, CREATE/RENAME between parent INSERTs (outside C03's
     hierarchy-free scope anyway). *)
 Theorem c07_uid_rules_inside_add_message_partial : forall s msg mb fl m,
-  Inv s -> find_id s mb = Some m ->
+  Inv s -> find_id s mb = Some m -> msg < next_msg s ->
   Inv (fst (store_message s)) /\ Inv (bump s mb) /\ Inv (fst (add_message s msg mb fl)).
 Proof. exact add_message_crash_states. Qed.
 Print Assumptions c07_uid_rules_inside_add_message_partial.
@@ -185,7 +200,7 @@ Proof. vm_compute. repeat split. Qed.
     login is OK, INBOX is there, a delivery is accepted and all listed messages
     are complete *)
 Example c07_mixed_workload :
-  length (all_points W_MIXED) = 69%nat /\
+  length (all_points W_MIXED) = 74%nat /\
   forallb (fun k => recovers_b (crash_at absent W_MIXED k) 200 W_SHAPE) (all_points W_MIXED) = true.
 Proof. vm_compute. repeat split. Qed.
 
